@@ -9,7 +9,7 @@ def _walk(n):
         x = st.pop()
         if isinstance(x, dict):
             yield x
-            st.extend(x.values())
+            st.extend(v for k_, v in x.items() if k_ != "_init")
         elif isinstance(x, list):
             st.extend(x)
 
